@@ -255,6 +255,32 @@ def c02(tr, acc, case):
         for et, n in expected_unhandled.items():
             if seen.get(et, 0) != n:
                 acc.violation({"mech": "unhandled_event_stream_count"}, f"{n} unaccepted {et} processed but {seen.get(et, 0)} UnhandledEvent on the stream", case)
+    # black box (harness-side knowledge of who is waiting, independent of the engine's waiter list): in a run that got stuck,
+    # a step invocation parked in wait_for_event whose type + requirements a later processed event satisfied must have got it
+    if tr.quiescent and tr.outcome is None:
+        by_w = {}
+        for r in tr.rec.log:
+            if r["k"] == "wait_call":
+                by_w.setdefault(r["wid"], {"call": r, "done": False, "parked_n": None, "bid": r["bid"]})
+                by_w[r["wid"]]["bid"] = r["bid"]
+            elif r["k"] in ("wait_ret", "wait_timeout") and r["wid"] in by_w:
+                by_w[r["wid"]]["done"] = True
+            elif r["k"] == "exit" and r.get("how") == "wait":
+                for w in by_w.values():
+                    if w["bid"] == r["bid"] and w["parked_n"] is None:
+                        w["parked_n"] = r["n"]
+        for wid, w in by_w.items():
+            req = w["call"].get("req") or {}
+            if w["done"] or w["parked_n"] is None or not req:
+                continue
+            acc.hit("parked_wait_eval")
+            for t in tr.ticks:
+                if t["tick"] == "TickAddEvent" and t["n"] > w["parked_n"] and t.get("etype") == w["call"]["type"] and t.get("step") in (None, w["call"]["step"]) \
+                        and all((t.get("efields") or {}).get(k) == v for k, v in req.items()):
+                    acc.violation({"mech": "waiting_step_never_got_matching_event"},
+                                  f"step {w['call']['step']} parked in wait_for_event({w['call']['type']}, {req}) never resumed although uid={t['uid']} "
+                                  f"matching it was processed at vt={t['t']}; the run is stuck", case)
+                    break
 
 
 # ------------------------------------------------------------------ C03
